@@ -25,6 +25,7 @@ type Val struct {
 	Ref  string // slices backed by the array heap: reference into Hs
 	Heap string // spec values: heap version to read from ("" = current)
 	Obj  string // value-form view of a heap object (buffer): the object's reference, for ref()
+	FnSpec string // function value read from a struct field: "Type.field" (its behaviour spec applies)
 	Fn   *ssa.Function
 	Bind []Val
 	Ty   types.Type
@@ -223,7 +224,7 @@ func typeName(t types.Type) string {
 	if p, ok := t.Underlying().(*types.Pointer); ok {
 		t = p.Elem()
 	}
-	if n, ok := t.(*types.Named); ok {
+	if n, ok := types.Unalias(t).(*types.Named); ok {
 		return n.Obj().Name()
 	}
 	return t.String()
